@@ -84,7 +84,7 @@ def run(ctx):
     hist = {}
     with tempfile.TemporaryDirectory(prefix="c15_") as tmp:
         structs, dps = big_inputs(ctx.rng, n_big)
-        scripts = BIG_SCRIPTS if not q else ctx.rng.sample(BIG_SCRIPTS, 6)
+        scripts = BIG_SCRIPTS if not q else ctx.rng.sample(BIG_SCRIPTS, 5)
         for s in scripts:
             sigs = {}
             for kb in knobs:
@@ -103,7 +103,7 @@ def run(ctx):
             if len(ctx.cov["samples"]) < 3:
                 ctx.sample({"script": s, "rows": n_big, "knobs": [str(k) for k in knobs], "distinct_results": len(set(sigs.values()))})
         # generated small scripts under a subset of knobs
-        for i in range(40 if q else 1200):
+        for i in range(25 if q else 1200):
             c = exprk.make_case(ctx.rng, ctx.rng.choice([1, 2, 3]))
             if c is None:
                 continue
@@ -116,7 +116,7 @@ def run(ctx):
         # corpus sample
         done = 0
         for c in corpus.enumerate_cases(rng=ctx.rng):
-            if done >= (15 if q else 600):
+            if done >= (10 if q else 600):
                 break
             if any(k in c.script.lower() for k in ("current_date", "random")):
                 continue
